@@ -14,7 +14,7 @@ from types import SimpleNamespace
 from lib import batch, tlc
 from lib.core import Ctx
 from lib import repo  # noqa: F401
-from props import seeding
+from props import seeding, worker
 
 
 _GENERATORS = {}
@@ -189,4 +189,7 @@ def run(ctx: Ctx):
     ctx.add_model("MC_Vectorise", mc_res["r"])
     # the stage that uses all of this: getInitialAlignment against Seeding.tla (seeds are bin centres, the kept ones the highest)
     seeding.run_part(ctx, "C16", model=False)
+    # and the coordinator that consumes the seeds: every message of every task replayed against Worker.tla (the refined
+    # seeds are the peaksCount highest primary peaks, in descending order)
+    worker.run_part(ctx, "C16")
     ctx.exhaustive = True
